@@ -186,6 +186,9 @@ func (s *Sys) ExploreJoint(opt JointOptions) *JointResult {
 			if opt.OnState != nil {
 				opt.OnState(o.st)
 			}
+			if s.OnLiveState != nil {
+				s.OnLiveState(o.st.Locals, o.st.Hist)
+			}
 			next = append(next, o.st)
 		}
 		if opt.MaxStates > 0 && len(seen) > opt.MaxStates {
@@ -239,6 +242,9 @@ func (s *Sys) RunScripted(script map[int]int, onStep func(prev, cur *LState, e E
 		trace = append(trace, e)
 		if onStep != nil {
 			onStep(prev, cur, e, trace)
+		}
+		if s.OnLiveState != nil {
+			s.OnLiveState(locals, trace)
 		}
 	}
 	bad = "horizon exceeded"
